@@ -361,6 +361,48 @@ Section SchedProofs.
       exists (repeat a n ++ s'). rewrite run_app. exact Hs'.
   Qed.
 
+  Lemma poll1_is_run : forall is_sync (c : config) t,
+    exists n, fst (poll1 handle is_sync c t) = run c (repeat t n).
+  Proof.
+    intros. unfold poll1. destruct (nth_error (tasks c) t) as [[a|m k]|] eqn:E.
+    - exists 0. reflexivity.
+    - exists 1. reflexivity.
+    - exists 0. reflexivity.
+  Qed.
+
+  Lemma repeat_app_run : forall (c : config) t n1 n2,
+    run (run c (repeat t n1)) (repeat t n2) = run c (repeat t (n1 + n2)).
+  Proof. intros. rewrite repeat_app, run_app. reflexivity. Qed.
+
+  Lemma poll_p_is_run : forall is_sync p (c : config) t,
+    exists n, fst (poll_p handle is_sync p c t) = run c (repeat t n).
+  Proof.
+    induction p; intros c t; simpl.
+    - destruct (poll1_is_run is_sync c t) as [n1 H1].
+      destruct (snd (poll1 handle is_sync c t)); [eauto|].
+      destruct (IHp (fst (poll1 handle is_sync c t)) t) as [n2 H2].
+      destruct (snd (poll_p handle is_sync p (fst (poll1 handle is_sync c t)) t)).
+      + exists (n1 + n2). rewrite H2, H1. apply repeat_app_run.
+      + destruct (IHp (fst (poll_p handle is_sync p (fst (poll1 handle is_sync c t)) t)) t) as [n3 H3].
+        eexists. rewrite H3, H2, H1, !repeat_app_run. reflexivity.
+    - destruct (IHp c t) as [n1 H1].
+      destruct (snd (poll_p handle is_sync p c t)); [eauto|].
+      destruct (IHp (fst (poll_p handle is_sync p c t)) t) as [n2 H2].
+      exists (n1 + n2). rewrite H2, H1. apply repeat_app_run.
+    - apply poll1_is_run.
+  Qed.
+
+  Theorem run_polls_p_is_run : forall is_sync p sched (c : config),
+    exists sched', run_polls_p handle is_sync p c sched = run c sched'.
+  Proof.
+    induction sched; intros; simpl.
+    - exists []. reflexivity.
+    - destruct (poll_p_is_run is_sync p c a) as [n Hn].
+      unfold run_polls_p in *. simpl. rewrite Hn.
+      destruct (IHsched (run c (repeat a n))) as [s' Hs'].
+      exists (repeat a n ++ s'). rewrite run_app. exact Hs'.
+  Qed.
+
   Corollary run_polls_reachable : forall is_sync fuel sched (c : config),
     reachable c (run_polls handle is_sync fuel c sched).
   Proof. intros. destruct (run_polls_is_run is_sync fuel sched c) as [s' ->]. now exists s'. Qed.
